@@ -44,8 +44,9 @@ def run(tier, seed, replay):
         good = []
         for c, rec in zip(cases, recs):
             rep.count("evaluations")
-            if rec.get("hang") or "panic" in rec:
-                rep.violation("%s in %r (input mode %s)" % ("hang" if rec.get("hang") else "panic: " + rec["panic"], c["src"], c["mode"]), {"family": "isolate", "case": c, "actual": rec.get("panic")})
+            if rec.get("hang") or "panic" in rec or "fatal" in rec:
+                rep.violation("%s in %r (input mode %s)" % ("hang" if rec.get("hang") else "fatal: " + rec["fatal"] if "fatal" in rec else "panic: " + rec["panic"], c["src"], c["mode"]),
+                              {"family": "isolate", "case": c, "actual": rec.get("panic") or rec.get("fatal")})
             elif "events" in rec:
                 rec["cut"] = any(e.get("e") == "error" for e in rec["events"]) or sum(1 for e in rec["events"] if e.get("e") == "emit" and e.get("run") == 1) >= 40
                 good.append(rec)
